@@ -83,6 +83,15 @@ impl ConnectionInfo {
 
     /// Returns the number of bytes of RX buffer space the peer has available to receive packet body
     /// data from us.
+    /// Presets the free-running byte counters, as if `tx_cnt` bytes had already been sent (and
+    /// forwarded by the peer) and `fwd_cnt` bytes received and read. Verification only.
+    #[cfg(virtio_drivers_verif)]
+    pub fn verif_set_counters(&mut self, tx_cnt: u32, fwd_cnt: u32) {
+        self.tx_cnt = tx_cnt;
+        self.peer_fwd_cnt = tx_cnt;
+        self.fwd_cnt = fwd_cnt;
+    }
+
     fn peer_free(&self) -> u32 {
         self.peer_buf_alloc - (self.tx_cnt - self.peer_fwd_cnt)
     }
